@@ -93,6 +93,7 @@ Section ExprInd.
   Hypothesis HExists : forall q, P (EExists q).
   Hypothesis HAgg : forall f arg, P (EAgg f arg).
   Hypothesis HCall : forall qual name args, Forall P args -> P (ECall qual name args).
+  Hypothesis HTuple : forall items, Forall P items -> P (ETuple items).
 
   Fixpoint c20_expr_ind (e : expr Q) : P e :=
     match e with
@@ -136,6 +137,10 @@ Section ExprInd.
         HCall qual name args
             ((fix go (l : list (expr Q)) : Forall P l :=
                 match l with [] => Forall_nil _ | x :: r => Forall_cons _ (c20_expr_ind x) (go r) end) args)
+    | ETuple items =>
+        HTuple items
+            ((fix go (l : list (expr Q)) : Forall P l :=
+                match l with [] => Forall_nil _ | x :: r => Forall_cons _ (c20_expr_ind x) (go r) end) items)
     end.
 End ExprInd.
 
@@ -190,6 +195,11 @@ Section EnvExt.
         end. }
       rewrite Heach.
       match goal with |- bind ?b _ = _ => destruct b; cbn [bind]; auto end.
+    - (* ETuple *)
+      f_equal.
+      match goal with HF : Forall _ items |- _ =>
+        induction HF as [|x r Hx _ IHr]; [reflexivity|]; rewrite Hx, IHr; reflexivity
+      end.
   Qed.
 End EnvExt.
 
